@@ -4,6 +4,11 @@
   C09.GUARD  read-modify-write of the shared job / thread counters happens under their mutex
   C09.SPIN   every spin / semaphore-assisted wait on a volatile alias of a shared field has, for that field, a store of a
              value satisfying the exit condition somewhere else in decoder run-time code (no orphan wait)
+  C09.PROGRESS  row-progress waits (`while (*prev < bound)` on an element of a per-row progress array): an *element* store of a
+             non-constant value to the same array exists in run-time code (allocating the array or zeroing it is not progress);
+             when waiter and publisher are the same function (wavefront inside one stage), both sit in the same loop, the value
+             published and the bound waited for are computed from that loop's iterator, and the wait dominates the publication
+             (a row announces column i only after it has itself waited for the row above)
   C09.SEM    every decoder semaphore that is waited on is posted by some other run-time function
 """
 from engine.facts import pstr, strip, callee_name, subexprs, fields_in, last_field, root_of, AnalysisBroken
@@ -14,7 +19,7 @@ PID = 'C09'
 
 META = {
     'technique': 'lockset dataflow over clang CFGs (pairing, guarded-by of job counters) + alias-resolved spin-wait/store matching by type-resolved field',
-    'text': 'Decides, on all paths of the decoder, that no mutex is leaked, that every read-modify-write of the row/tile/thread counters used to distribute jobs is made under its mutex, and that every wait loop over a volatile alias of a shared flag or row map has a producer store elsewhere. These are necessary conditions of data-race- and hang-freedom under every interleaving; equality with the single-thread result, the single-writer volatile row maps and the inter-frame reallocation protocol are not decided.',
+    'text': 'Decides, on all paths of the decoder, that no mutex is leaked, that every read-modify-write of the row/tile/thread counters used to distribute jobs is made under its mutex, and that every wait loop over a volatile alias of a shared flag or row map has a producer store elsewhere, and that every row-progress wait (wavefront between superblock rows in recon, loop filter, CDEF and restoration) is paired with a per-superblock publication in the same loop, after the wait, advancing with the loop iterator. These are necessary conditions of data-race- and hang-freedom under every interleaving; equality with the single-thread result, the single-writer volatile row maps and the inter-frame reallocation protocol are not decided.',
     'note': 'worker entry = dec_all_stage_kernel; the API thread participates as a worker; volatile single-writer row maps are accepted as the code base\'s synchronisation idiom (formally racy; value-level argument not attempted)',
     'ref': 'DESIGN.md section 5 C09',
 }
@@ -168,6 +173,144 @@ def run(P, rep, tier):
                            (p, fld, ('== %s' % want) if want is not None else 'condition changes',
                             sorted({s[0].name for s in good})[:4] or 'NO run-time function'))
     rep.floor('C09.SPIN', 12)
+
+    # ---------------- PROGRESS
+    def alias_locals(f):
+        al = {}
+        for ev in f.events(('decl', 'st')):
+            e = ev.get('e')
+            if e is None:
+                continue
+            if ev['k'] == 'decl':
+                n, rhs = ev['n'], e
+            elif e[0] == 'a' and e[1] == '=' and strip(e[2]) and strip(e[2])[0] == 'v':
+                n, rhs = strip(e[2])[1], e[3]
+            else:
+                continue
+            af = addr_field(rhs)
+            if af:
+                al.setdefault(n, set()).add(af)
+        return al
+
+    def elem_stores(f, al):
+        out = []
+        for ev in f.events(('st',)):
+            e = ev['e']
+            if e[0] != 'a' or e[1] != '=':
+                continue
+            t = strip(e[2])
+            flds = set()
+            if t[0] == 'u' and t[1] == '*' and strip(t[2])[0] == 'v':
+                flds = al.get(strip(t[2])[1], set())
+            elif t[0] == 'i' and last_field(t):
+                flds = {last_field(t)}
+            v = strip(e[3])
+            if flds and not (v[0] == 'l'):
+                out.append((ev, flds, e[3]))
+        return out
+    allstores = {}
+    for f in dec:
+        if f in C.runtime:
+            for ev, flds, v in elem_stores(f, alias_locals(f)):
+                for fl in flds:
+                    allstores.setdefault(fl, []).append((f, ev, v))
+
+    def loop_of(f, ev):
+        for kind, cond, line in f.ctl_chain(ev):
+            if kind in ('for', 'while', 'do') and cond is not None:
+                return (kind, line, cond)
+        return None
+
+    def iter_vars(f, cond):
+        return {x[1] for x in subexprs(cond) if x[0] == 'v' and x[2] == 'l'}
+
+    def stepped_in(f, loop_line):
+        out = set()
+        for ev in f.events(('st',)):
+            e = ev['e']
+            if (e[0] == 'u' or (e[0] == 'a' and e[1] != '=')) and strip(e[2])[0] == 'v' and strip(e[2])[2] == 'l':
+                if any(k in ('for', 'while', 'do') and ln == loop_line for k, c, ln in f.ctl_chain(ev)) or ev.get('l') == loop_line:
+                    out.add(strip(e[2])[1])
+        return out
+
+    def depends_on(f, e, names, depth=0):
+        """e is computed from one of the locals `names` (through single-definition locals)"""
+        for x in subexprs(e):
+            if x[0] == 'v' and x[1] in names:
+                return True
+        if depth > 3:
+            return False
+        for x in subexprs(e):
+            if x[0] == 'v' and x[2] == 'l':
+                defs = [ev for ev in f.events(('decl', 'st')) if (ev['k'] == 'decl' and ev['n'] == x[1] and ev.get('e') is not None) or
+                        (ev['k'] == 'st' and ev['e'][0] == 'a' and ev['e'][1] == '=' and strip(ev['e'][2]) == x)]
+                for d in defs:
+                    rhs = d['e'] if d['k'] == 'decl' else d['e'][3]
+                    if depends_on(f, rhs, names, depth + 1):
+                        return True
+        return False
+    nprog = 0
+    for f in dec:
+        if f not in C.runtime:
+            continue
+        al = alias_locals(f)
+        mine = elem_stores(f, al)
+        for bid in sorted(f.reach()):
+            b = f.blocks[bid]
+            c = b.get('fullcond')
+            if c is None or b.get('tk') not in ('WhileStmt', 'DoStmt'):
+                continue
+            cc = strip(c)
+            if cc[0] != 'b' or cc[1] not in ('<', '<='):
+                continue
+            l = strip(cc[2])
+            if not (l[0] == 'u' and l[1] == '*' and strip(l[2])[0] == 'v' and strip(l[2])[1] in al):
+                continue
+            p = strip(l[2])[1]
+            where = '%s:%d' % (f.loc().rsplit(':', 1)[0], b.get('tl', f.line))
+            for fld in sorted(al[p]):
+                nprog += 1
+                prods = allstores.get(fld, [])
+                key = '%s/progress:%s' % (f.name, fld.split('.')[1])
+                if not prods:
+                    rep.ob('C09.PROGRESS', key, False, where, 'wait on *%s (element of %s) but no run-time function stores a progress value into an element of that array: the wait never ends' % (p, fld))
+                    continue
+                same = [(ev, v) for ev, flds, v in mine if fld in flds]
+                if not same:
+                    rep.ob('C09.PROGRESS', key, True, where, 'wait on *%s (element of %s); progress published by %s' % (p, fld, sorted({g.name for g, _, _ in prods})))
+                    continue
+                # wavefront inside one function
+                # enclosing loop of the wait: through the structured-control table (the wait's own entry is the while at this line)
+                wl = None
+                wctl = [i for i, (par, kind, cond, line) in enumerate(f.ctl) if kind in ('while', 'do') and line == b.get('tl') and cond is not None and pstr(strip(cond)) == pstr(cc)]
+                cpar = f.ctl[wctl[0]][0] if wctl else None
+                guards = []
+                while cpar is not None and cpar >= 0:
+                    par, kind, cond, line = f.ctl[cpar]
+                    if kind in ('for', 'while', 'do') and cond is not None:
+                        wl = (kind, line, cond)
+                        break
+                    guards.append(cpar)
+                    cpar = par
+                problems = []
+                for ev, v in same:
+                    pl = loop_of(f, ev)
+                    if wl is None or pl is None or (pl[1] != wl[1]):
+                        problems.append('publication at line %s is not in the loop of the wait' % ev.get('l'))
+                        continue
+                    its = iter_vars(f, pl[2]) | stepped_in(f, pl[1])
+                    if not depends_on(f, v, its):
+                        problems.append('published value %s does not advance with the loop (%s)' % (pstr(v)[:30], sorted(its)))
+                    if not depends_on(f, cc[3], its):
+                        problems.append('bound %s does not advance with the loop (%s)' % (pstr(cc[3])[:30], sorted(its)))
+                    # order inside the body: the publication comes after the wait (source order within the same loop body; the
+                    # wait may be conditional - the first row has no row above)
+                    if not (ev.get('l', 0) > b.get('tl', 0)):
+                        problems.append('publication (line %s) precedes the wait (line %s) in the loop body' % (ev.get('l'), b.get('tl')))
+                rep.ob('C09.PROGRESS', key, not problems, where,
+                       ('wavefront: wait on *%s < %s and publication %s sit in the loop at line %s and advance with its iterator' % (p, pstr(cc[3])[:40], ', '.join(pstr(v)[:20] for _, v in same), wl[1] if wl else '?'))
+                       if not problems else '; '.join(problems))
+    rep.floor('C09.PROGRESS', 5)
 
     # ---------------- SEM
     waits, posts = {}, {}
